@@ -820,14 +820,40 @@ func (oa *orderAnalysis) isMinMaxStore(st *ssa.Store) bool {
 // isLazyInit: `if x == nil { x = make(...) }` — the stored value is a fresh
 // empty container and the store is taken only when the location is nil.
 func (oa *orderAnalysis) isLazyInit(r *region, st *ssa.Store, cls func(ssa.Value) vclass) bool {
+	fresh := false
 	switch st.Val.(type) {
 	case *ssa.MakeMap, *ssa.MakeSlice:
-	default:
+		fresh = true
+	}
+	// keyed initialisation: the object whose field is set was obtained by a
+	// get-or-create keyed by a projection of the stored value itself, so every
+	// element that reaches this object carries the same value
+	keyed := oa.keyedInit(st)
+	if !fresh && !keyed {
+		return false
+	}
+	// the guard: a nil test of the location itself, or of a sibling field of
+	// the same object that is set in the same guarded block
+	sameObject := func(addr ssa.Value) bool {
+		if oa.p.SameExpr(addr, st.Addr) {
+			return true
+		}
+		fa, ok1 := addr.(*ssa.FieldAddr)
+		fb, ok2 := st.Addr.(*ssa.FieldAddr)
+		if !ok1 || !ok2 || !oa.p.SameExpr(fa.X, fb.X) {
+			return false
+		}
+		// the sibling is set together with this location
+		for _, ins := range st.Block().Instrs {
+			if s2, ok := ins.(*ssa.Store); ok && oa.p.SameExpr(s2.Addr, addr) {
+				return true
+			}
+		}
 		return false
 	}
 	ld := func(v ssa.Value) bool {
 		u, ok := v.(*ssa.UnOp)
-		return ok && u.Op == token.MUL && oa.p.SameExpr(u.X, st.Addr)
+		return ok && u.Op == token.MUL && sameObject(u.X)
 	}
 	for _, b := range st.Parent().Blocks {
 		iff, ok := b.Instrs[len(b.Instrs)-1].(*ssa.If)
@@ -843,6 +869,55 @@ func (oa *orderAnalysis) isLazyInit(r *region, st *ssa.Store, cls func(ssa.Value
 				succ = b.Succs[0]
 			}
 			if core.EdgeDominates(b, succ, st.Block()) {
+				return true
+			}
+		}
+	}
+	return false
+}
+
+// keyedInit: st stores v into a field of an object n (through any number of
+// field selections) where n is the result of a get-or-create call one of whose
+// arguments is derived from v (its segments, its name): the key determines v.
+func (oa *orderAnalysis) keyedInit(st *ssa.Store) bool {
+	p := oa.p
+	base := st.Addr
+	for i := 0; i < 4; i++ {
+		fa, ok := base.(*ssa.FieldAddr)
+		if !ok {
+			break
+		}
+		base = fa.X
+	}
+	var call *ssa.Call
+	switch x := base.(type) {
+	case *ssa.Call:
+		call = x
+	case *ssa.Phi:
+		// the same get-or-create on two branches (one per tree)
+		for _, e := range x.Edges {
+			c, ok := e.(*ssa.Call)
+			if !ok {
+				return false
+			}
+			if call == nil {
+				call = c
+			} else if core.BaseName(call.Call.StaticCallee()) != core.BaseName(c.Call.StaticCallee()) {
+				return false
+			}
+		}
+	}
+	if call == nil || call.Call.StaticCallee() == nil {
+		return false
+	}
+	name := core.BaseName(call.Call.StaticCallee())
+	if name != "GetOrCreate" && name != "GetDefault" {
+		return false
+	}
+	want := core.Strip(st.Val)
+	for _, a := range call.Call.Args[1:] {
+		for v := range originSet(p, a, 0) {
+			if v == want || p.SameExpr(v, want) {
 				return true
 			}
 		}
